@@ -300,6 +300,38 @@ pub fn run(op: &str, e: &Value, ctx: &mut Ctx) -> Result<Value, String> {
             o["ss"] = sc_bytes(&ss);
             Ok(o)
         }
+        // ---- rand_core constructors with a scripted RNG: in[0] = the bytes the RNG will return
+        "rng.scalar" => {
+            let b = bytes_of(inp(e, 0)?)?;
+            let r = Scalar::random(&mut ScriptRng(b, 0));
+            ctx.set(&out_name(e)?, Reg::Sc(r));
+            Ok(json!({"r": jbytes(&r.to_bytes())}))
+        }
+        "rng.ristretto" => {
+            let b = bytes_of(inp(e, 0)?)?;
+            set_ris(ctx, e, RistrettoPoint::random(&mut ScriptRng(b, 0)))
+        }
+        "rng.signing_key" => {
+            let b = bytes_of(inp(e, 0)?)?;
+            let k = SigningKey::generate(&mut ScriptRng(b, 0));
+            Ok(json!({"sk": jbytes(&k.to_bytes()), "pk": jbytes(k.verifying_key().as_bytes())}))
+        }
+        #[cfg(feature = "tables")]
+        "ris.table" => {
+            // RistrettoBasepointTable::create(P), then basepoint() and both multiplication orders
+            let p = ris_arg(ctx, inp(e, 0)?)?;
+            let s = sc_arg(ctx, inp(e, 1)?)?;
+            let t = curve25519_dalek::ristretto::RistrettoBasepointTable::create(&p);
+            let a = &t * &s;
+            let b = &s * &t;
+            if a != b {
+                panic!("table * scalar and scalar * table disagree");
+            }
+            let mut o = set_ris(ctx, e, a)?;
+            o["s"] = jbytes(&s.to_bytes());
+            o["bp"] = ris_obs(&t.basepoint());
+            Ok(o)
+        }
         "ris.compress" => {
             let a = ris_arg(ctx, inp(e, 0)?)?;
             Ok(json!({"r": ris_obs(&a)}))
